@@ -95,3 +95,11 @@ def run(ctx):
         rm = [b for b in call_sites_with(ctx, u, ["*HashMap*::remove"]) if has_leaf(ctx.leaves(call_expr(u, b)[3][0]), "a1.hash_pools") and not has_leaf(ctx.leaves(call_expr(u, b)[3][0]), "a1.validated_pools")]
         ok = len(rm) == 1 and has_leaf(ctx.leaves(call_expr(u, rm[0])), "call:" + M + "stale_height_threshold")
         ctx.check(ok, "C40.evict", u.path, "pools from the old threshold up to the new threshold are evicted", key="C40.evict")
+        if len(rm) == 1:
+            # the whole interval (old threshold ..= new threshold) is evicted, not one height: the removal
+            # key is produced by an iteration whose bounds derive from BOTH the previous head and the new one
+            key = call_expr(u, rm[0])[3][1]
+            kl = ctx.leaves(key)
+            in_loop = rm[0] in u.reachable_from(u.succ(rm[0]))
+            ctx.check(in_loop and has_leaf(kl, "call:*Iterator*::next") and has_leaf(kl, "a2") and has_leaf(kl, "a1.subjective_head"), "C40.evict.interval", u.path,
+                      "the eviction iterates from the threshold of the previous subjective head to the threshold of the new one", site=u.loc(rm[0]), key="C40.evict.interval")
